@@ -1122,9 +1122,10 @@ def gen_loop_history(rng, model, mx, style="mixed", ver="4"):
                 unacked.clear(); del rel[:]
                 a = connect(1)
                 for _ in range(40):
-                    # v5: the notifications the old connection left unread, then the CONNACK, come out
-                    # first (no time passes): the scheduled broker writes below start after them
-                    if not v5 or a.startswith("EVENT I(CONNACK") or not a.startswith("EVENT"):
+                    # v5: the notifications the old connection left unread (incl. the CONNACK of a refused
+                    # attempt), then the CONNACK, come out first (no time passes): the scheduled broker
+                    # writes below start after them
+                    if not v5 or (a.startswith("EVENT I(CONNACK") and a.split()[1].split(":")[3] != "0") or not a.startswith("EVENT"):
                         break
                     a = do("POLL"); note(a)
                 # the broker talks during the throttle waits of the resumed session
